@@ -90,7 +90,23 @@ func verifObjDesc(tf *transformer, obj types.Object) string {
 	if ok {
 		decision = "rename:" + verifHex([]byte(newName))
 	}
-	return fmt.Sprintf("%s|%s|%d|%s|%d|%s|%d|%d|%d|%s=>%s", kind, verifHex([]byte(obj.Name())), cls, path, toObf, gaid, hasRecv, testSig, intrinsic, structHash, decision)
+	// embedded fields: the type they are named after (- if not embedded, ? if the type is unnamed)
+	emb := "-"
+	if v, ok := obj.(*types.Var); ok && v.Embedded() {
+		emb = "?"
+		if tn := namedType(v.Type()); tn != nil {
+			tpath := "-"
+			if tn.Pkg() != nil {
+				tpath = verifHex([]byte(tn.Pkg().Path()))
+			}
+			tcls := 2
+			if tn.Exported() {
+				tcls = 1
+			}
+			emb = fmt.Sprintf("%s,%d,%s", verifHex([]byte(tn.Name())), tcls, tpath)
+		}
+	}
+	return fmt.Sprintf("%s|%s|%d|%s|%d|%s|%d|%d|%d|%s|%s=>%s", kind, verifHex([]byte(obj.Name())), cls, path, toObf, gaid, hasRecv, testSig, intrinsic, structHash, emb, decision)
 }
 
 var _ = func() bool {
